@@ -5,6 +5,7 @@ import (
 	_ "embed"
 	"encoding/json"
 	"fmt"
+	"strconv"
 	"sync"
 	"time"
 
@@ -267,4 +268,59 @@ func toyKeyWith(id string, nattr int, lePrime uint) *KeyPair {
 	}
 	pk.Issuer = id
 	return &KeyPair{id: id, sk: sk, pk: pk}
+}
+
+// wideKey: the key pair `base` with its list of attribute bases extended to n bases
+// (R_i = S^x_i for fresh x_i): credentials with more than 64 attributes.
+func wideKey(base *KeyPair, n int) *KeyPair {
+	ck := fmt.Sprintf("%s/wide/%d", base.id, n)
+	if v, ok := keyCache.Load(ck); ok {
+		return v.(*KeyPair)
+	}
+	pk2, sk2 := *base.pk, *base.sk
+	pk2.R = append([]*big.Int{}, base.pk.R...)
+	for len(pk2.R) < n {
+		b := make([]byte, 64)
+		crand.Read(b)
+		pk2.R = append(pk2.R, new(big.Int).Exp(base.pk.S, new(big.Int).SetBytes(b), base.pk.N))
+	}
+	kp := &KeyPair{id: fmt.Sprintf("%sw%d", base.id, n), sk: &sk2, pk: &pk2}
+	keyCache.Store(ck, kp)
+	return kp
+}
+
+// highIndexSplitOps: a credential with more attributes than a machine word has bits; an index at
+// and beyond 64 both disclosed (x) and hidden (response - c*x), and a range proof there: refused
+// exactly like at small indices.
+func highIndexSplitOps(g *Rng, base *KeyPair, fkey string) []Op {
+	kp := wideKey(base, 68)
+	pk := kp.pk
+	attrs := make([]*big.Int, 66)
+	for i := range attrs {
+		attrs[i] = g.bits(40)
+	}
+	cred := issueCred(kp, randSecret(g), attrs)
+	ctx, nonce := g.bits(256), g.bits(80)
+	p, err := cred.CreateDisclosureProof([]int{1}, nil, false, ctx, nonce)
+	if err != nil {
+		panic(err)
+	}
+	tree := proofDTree(p)
+	ops := []Op{declKey(kp), verifyDOp(kp.id, tree, ctx, nonce, false, "many-attributes-honest", "accept")}
+	for _, j := range []int{2, 63, 64, 65, 66} {
+		for _, x := range []*big.Int{bi(0), bi(1), new(big.Int).Add(cred.Attributes[j], bi(1))} {
+			rem := new(big.Int).Sub(p.AResponses[j], new(big.Int).Mul(p.C, expOf(pk.Params.Lm, x)))
+			if rem.Sign() < 0 {
+				continue
+			}
+			t2 := cloneTree(tree).(T)
+			t2["a_disclosed"].(T)[strconv.Itoa(j)] = I(x)
+			t2["a_responses"].(T)[strconv.Itoa(j)] = I(rem)
+			ops = append(ops, verifyDOp(kp.id, t2, ctx, nonce, false, fmt.Sprintf("split-at-index-%d", j), "reject").with("fkey", fkey))
+		}
+		t3 := cloneTree(tree).(T)
+		t3["a_disclosed"].(T)[strconv.Itoa(j)] = I(cred.Attributes[j])
+		ops = append(ops, verifyDOp(kp.id, t3, ctx, nonce, false, fmt.Sprintf("both-ways-at-index-%d", j), "reject").with("fkey", fkey))
+	}
+	return ops
 }
